@@ -543,7 +543,14 @@ def run(ctx):
                 reached = False
                 last_ok_local = None
                 first_local = None
-                for kind, x, info in provenance(fn, okc["a"][0]):
+                result_expr = okc["a"][0]
+                inherit_from = None
+                rc = peel(result_expr, NO_T)
+                if rc.get("k") == "call" and len(rc.get("a", [])) == 2 and _is_inheriting_helper(F, rc.get("p")):
+                    # Ok(helper(&container, member)) where helper copies the container's read-only flag onto the member it returns
+                    inherit_from = local_of(rc["a"][0])
+                    result_expr = rc["a"][1]
+                for kind, x, info in provenance(fn, result_expr):
                     if kind == "local":
                         if first_local is None:
                             first_local = x
@@ -558,7 +565,7 @@ def run(ctx):
                 # the container itself handed on unchanged keeps its own flag
                 if local_of(okc["a"][0]) == container:
                     continue
-                fine = readonly_guard(fn, okc, container)
+                fine = readonly_guard(fn, okc, container) or (inherit_from is not None and inherit_from == container)
                 if not fine and first_local is not None and first_local != container:
                     for s in fn.walk():
                         if s.get("k") == "mcall" and s["m"] == "set_readonly" and local_of(s["r"], NO_T) == first_local and \
@@ -772,3 +779,38 @@ def pattern_bindings(p):
     elif "e" in p and isinstance(p["e"], dict):
         out.extend(pattern_bindings(p["e"]))
     return out
+
+
+_INHERIT_CACHE = {}
+
+
+def _is_inheriting_helper(F, path):
+    """fn h(container, member) -> DataArc that returns (a clone of) `member` and calls set_readonly(true) on it under
+    `container.is_readonly()`."""
+    if not path:
+        return False
+    if path in _INHERIT_CACHE:
+        return _INHERIT_CACHE[path]
+    _INHERIT_CACHE[path] = False
+    fn = F.fns.get(path)
+    if fn is None or fn.hir is None or len(fn.params) != 2:
+        return False
+    cb, mb = fn.params[0].get("b"), fn.params[1].get("b")
+    sets = [s for s in fn.walk() if s.get("k") == "mcall" and s["m"] == "set_readonly" and s["a"] and const_eval(s["a"][0]) is True]
+    ok = False
+    for s in sets:
+        tgt = hirq.origin(fn, s["r"])
+        from_member = local_of(s["r"]) == mb or (tgt.get("from") == "expr" and hirq.mentions_local(tgt["expr"], mb)) or \
+            (tgt.get("from") == "param" and tgt.get("index") == 1)
+        guarded = any(pol is True and isinstance(a, dict) and a.get("k") == "mcall" and a["m"] == "is_readonly" and local_of(a["r"]) == cb
+                      for a, pol in hirq.guard_atoms(fn, s))
+        if from_member and guarded:
+            ok = True
+    # the result is the member (clone), never the container
+    tail = fn.hir.get("tail") if fn.hir.get("k") == "block" else None
+    if tail is not None:
+        o = hirq.origin(fn, tail)
+        if o.get("from") == "param" and o.get("index") != 1:
+            ok = False
+    _INHERIT_CACHE[path] = ok
+    return ok
